@@ -658,10 +658,10 @@ fn families(tier: vcore::Tier) -> Vec<Family> {
     let mut v = vec![
         // one operator, everything switched on
         Family { name: "exh-1op-full", k: 1, consts: 1, graph_cap: true, multi0: true, caps: true, modes: ALL_MODES, orders: 2, ..base },
-        // two operators: captures + multi-output + optional inputs + in-place flags, both id orders
-        Family { name: "exh-2ops-captures", k: 2, multi0: true, caps: true, orders: 2, ..base },
+        // two operators: captures + multi-output + optional inputs + in-place flags
+        Family { name: "exh-2ops-captures", k: 2, multi0: true, caps: true, ..base },
         // two operators with a constant, a graph-level capture and all plan options
-        Family { name: "exh-2ops-options", k: 2, consts: 1, graph_cap: true, multi0: true, modes: ALL_MODES, ..base },
+        Family { name: "exh-2ops-options", k: 2, consts: 1, graph_cap: true, multi0: true, in_place: false, modes: ALL_MODES, ..base },
         // three single-output operators: optional inputs + in-place flags
         Family { name: "exh-3ops-wiring", k: 3, ..base },
         // three operators, op0 with two outputs, both id orders
